@@ -89,6 +89,17 @@ const OPS = {
   ifaceMethodElem: { arity: 1, decl: (n, s) => `interface ${n} { m(): void; get k(): ${s[0]} }`, src: (s, n) => `${n}['m' | 'k']`, ctors: (c) => ['Function'].concat(c[0]), samples: (x) => [() => {}].concat(x[0]) },
   arrayGenericElem: { arity: 1, src: (s) => `Array<${s[0]}>[number]`, ctors: (c) => c[0], samples: (x) => x[0] },
   tupleOptElem: { arity: 2, decl: (n, s) => `type ${n} = [${s[0]}, (${s[1]})?];`, src: (s, n) => `${n}[number]`, ctors: (c) => c[0].concat(c[1]), samples: (x) => x[0].concat(x[1]) },
+  // an indexed access whose object is itself an indexed access; the two indices differ and the member under the other index is a symbol
+  chainTuple01: { arity: 2, decl: (n, s) => `type ${n} = [[symbol, ${s[0]}], [${s[1]}, symbol]];`, src: (s, n) => `${n}[0][1]`, ctors: (c) => c[0], samples: (x) => x[0] },
+  chainTuple10: { arity: 2, decl: (n, s) => `type ${n} = [[symbol, ${s[0]}], [${s[1]}, symbol]];`, src: (s, n) => `${n}[1][0]`, ctors: (c) => c[1], samples: (x) => x[1] },
+  chainObj: { arity: 1, decl: (n, s) => `type ${n} = { a: { a: symbol; b: ${s[0]} }; b: symbol };`, src: (s, n) => `${n}['a']['b']`, ctors: (c) => c[0], samples: (x) => x[0] },
+  chainIface: { arity: 1, decl: (n, s) => `interface ${n}i { a: symbol; b: ${s[0]} }\ninterface ${n} { a: ${n}i; b: symbol }`, src: (s, n) => `${n}['a']['b']`, ctors: (c) => c[0], samples: (x) => x[0] },
+  chainParen: { arity: 1, decl: (n, s) => `type ${n} = { a: { b: ${s[0]} }; b: symbol };`, src: (s, n) => `(${n}['a'])['b']`, ctors: (c) => c[0], samples: (x) => x[0] },
+  chainAlias: { arity: 1, decl: (n, s) => `type ${n} = { a: { a: symbol; b: ${s[0]} }; b: symbol };\ntype ${n}a = ${n}['a'];`, src: (s, n) => `${n}a['b']`, ctors: (c) => c[0], samples: (x) => x[0] },
+  chainObjTuple: { arity: 1, decl: (n, s) => `type ${n} = { a: [${s[0]}, symbol]; 0: symbol };`, src: (s, n) => `${n}['a'][0]`, ctors: (c) => c[0], samples: (x) => x[0] },
+  chainTupleObj: { arity: 1, decl: (n, s) => `type ${n} = [symbol, { k: ${s[0]}; 1: symbol }];`, src: (s, n) => `${n}[1]['k']`, ctors: (c) => c[0], samples: (x) => x[0] },
+  chainObjArr: { arity: 1, decl: (n, s) => `type ${n} = { a: (${s[0]})[]; b: symbol };`, src: (s, n) => `${n}['a'][number]`, ctors: (c) => c[0], samples: (x) => x[0] },
+  chain3: { arity: 1, decl: (n, s) => `type ${n} = { a: { b: { c: ${s[0]}; a: symbol }; c: symbol }; b: symbol; c: symbol };`, src: (s, n) => `${n}['a']['b']['c']`, ctors: (c) => c[0], samples: (x) => x[0] },
   // conservative wrappers: the statement gives "the union of their parts"; only the inhabitants clause is judged
   exclude: { arity: 2, loose: true, src: (s) => `Exclude<${s[0]} | ${s[1]}, ${s[1]}>`, ctors: (c) => c[0].concat(c[1]), samples: (x) => x[0] },
   extract: { arity: 2, loose: true, src: (s) => `Extract<${s[0]} | ${s[1]}, ${s[0]}>`, ctors: (c) => c[0].concat(c[1]), samples: (x) => x[0] },
